@@ -247,7 +247,9 @@ struct QRCase {
         Rng g = c.rng(); VP_OPERAND((Tensor<T, N, N>), A);
         constexpr bool piv = QT == QRCompType::MGSRPiv;
         for (int it = 0; it < 12; ++it) {
-            LD kappa = it % 4 == 0 ? 1 : (it % 4 == 1 ? 10 : (it % 4 == 2 ? 100 : 1000));
+            // condition numbers up to 1e3 (float) / 1e5 (double): far enough for the cond-linear bound of MODIFIED Gram-Schmidt to separate from the
+            // cond^2 behaviour of the classical variant
+            LD kappa = it % 4 == 0 ? 1 : (it % 4 == 1 ? 10 : (it % 4 == 2 ? (sizeof(T) == 4 ? 100 : 1000) : (sizeof(T) == 4 ? 1000 : 100000)));
             la::fill_cond(A.data(), N, kappa, g);
             Framed<Tensor<T, N, N>> Q, R; Tensor<size_t, N> Pv; Tensor<T, N, N> Pm; paint(Q->data(), N * N); paint(R->data(), N * N);
             for (size_t i = 0; i < N; ++i) Pv.data()[i] = 0xC3C3C3C3u + i; paint(Pm.data(), N * N);     // pure outputs: painted
